@@ -42,7 +42,10 @@ RULE = {
     "C11": ("rtu/binary: garbage prefixes (random bytes, corrupted / truncated frames, foreign-unit frames, delimiter "
             "runs, short brace pairs, byte-counted request / response headers with impossible byte counts 0xF0..0xFF alone, "
             "behind 1-3 noise bytes and as a full-length frame with a flipped count bit) followed by 7-14 valid frames, one per read and several per read, bare framer "
-            "and with the serial handlers' reset-on-exception. non-trivial = a valid frame after the window exists"),
+            "and with the serial handlers' reset-on-exception (model), AND through the real ModbusSingleRequestHandler "
+            "(sync, fake port) and the asyncio datagram handler with both framers: reads that make the framer raise (binary "
+            "'{}', '{x}', CRC-valid frame with undecodable PDU, ...) then valid requests one / two per read; a request counts "
+            "as delivered only if it was answered. non-trivial = a valid frame after the window exists"),
 }
 TRUSTED = [
     "rtu/binary, modelled by hand and tied by correspondence on every run: control flow of processIncomingPacket, "
@@ -854,6 +857,196 @@ def suite_c11(tier):
     return Suite("b_c11", IMPORTS, "chk_c11", cases, shard=40)
 
 
+# ----------------------------------------------------------------------------- C11 through the REAL serial-style handlers
+
+def _server_ns(kind, rec):
+    import types
+    from pymodbus.datastore import ModbusSequentialDataBlock, ModbusSlaveContext, ModbusServerContext
+    blk = lambda: ModbusSequentialDataBlock(0, [0] * 2100)
+    ctx = ModbusServerContext(slaves=ModbusSlaveContext(di=blk(), co=blk(), hr=blk(), ir=blk(), zero_mode=True), single=True)
+    return types.SimpleNamespace(context=ctx, framer=framer_cls(kind), decoder=rec, threads=[],
+                                 ignore_missing_slaves=False, broadcast_enable=False, active_connections={})
+
+
+class _HandlerProbe:
+    """hooks on one handler instance: deliveries that were answered, exceptions of processIncomingPacket,
+    framer state after each read"""
+
+    def __init__(self, kind):
+        self.kind, self.sent, self.dels, self.exc, self.obs = kind, [], [], None, []
+
+    def hook(self, h):
+        self.h = h
+        orig_exec, orig_pip = h.execute, h.framer.processIncomingPacket
+
+        def execute(request, *a):
+            n = len(self.sent)
+            orig_exec(request, *a)
+            if len(self.sent) > n:          # the request was answered
+                self.dels.append((request._verif_pdu, int(request.unit_id)))
+
+        def pip(*a, **kw):
+            try:
+                return orig_pip(*a, **kw)
+            except Exception as e:  # noqa: BLE001
+                self.exc = pyexn(e)
+                raise
+        h.execute = execute
+        h.framer.processIncomingPacket = pip
+
+    def snapshot(self):
+        fr = self.h.framer
+        self.obs.append((self.dels, self.exc, bytes(fr._buffer), canon_hdr(self.kind, fr._header)))
+        self.dels, self.exc = [], None
+
+
+def drive_handler(frontend, kind, chunks):
+    """feed the reads to the real serial-style handler; returns a run like drive(): per read the requests that were
+    delivered AND answered, the exception processIncomingPacket raised (the handler catches it), and the framer
+    state after the handler dealt with the read; plus what escaped the handler itself"""
+    import asyncio
+    import warnings
+    try:
+        from props.lib_server import reset_mcb
+    except Exception:  # noqa: BLE001
+        reset_mcb = lambda: None
+    reset_mcb()
+    rec = RecDecoder(decoder(False))
+    ns = _server_ns(kind, rec)
+    probe = _HandlerProbe(kind)
+    escaped = None
+    if frontend == "sync_serial":
+        from pymodbus.server.sync import ModbusSingleRequestHandler as H
+        h = H.__new__(H)
+        todo = [bytes(c) for c in chunks]
+        state = {"i": 0}
+
+        class Port:
+            def recv(self, n):
+                if state["i"] > 0:
+                    probe.snapshot()
+                if state["i"] < len(todo):
+                    state["i"] += 1
+                    data = todo[state["i"] - 1]
+                    if not data:                 # an empty read is not handed to the framer by this handler
+                        return b""
+                    return data
+                h.running = False
+                return b""
+
+            def send(self, data):
+                probe.sent.append(bytes(data))
+                return len(data)
+        h.request, h.client_address, h.server = Port(), ("serial", 0), ns
+        h.setup()
+        probe.hook(h)
+        try:
+            h.handle()
+        except Exception as e:  # noqa: BLE001 — nothing may escape a serial handler
+            escaped = type(e).__name__
+        h.finish()
+    else:
+        from pymodbus.server import async_io as aio
+
+        class T:
+            def get_extra_info(self, k):
+                return ("127.0.0.1", 5020)
+
+            def sendto(self, data, addr=None):
+                probe.sent.append(bytes(data))
+
+            def close(self):
+                pass
+
+        async def main():
+            nonlocal escaped
+            with warnings.catch_warnings():
+                warnings.simplefilter("ignore")
+                h = aio.ModbusDisconnectedRequestHandler(ns)
+                h.connection_made(T())
+            probe.hook(h)
+            for c in chunks:
+                h.datagram_received(bytes(c), ("127.0.0.1", 1))
+                for _ in range(4):
+                    await asyncio.sleep(0)
+                probe.snapshot()
+            if h.handler_task is None or h.handler_task.done():
+                escaped = "handler-task-ended"
+            h.connection_lost(None)
+            await asyncio.sleep(0)
+            if h.handler_task is not None and h.handler_task.done() and not h.handler_task.cancelled():
+                h.handler_task.exception()
+        asyncio.run(main())
+    reset_mcb()
+    obs = list(probe.obs)
+    frozen = obs[-1] if obs else ([], None, b"", canon_hdr(kind, framer_cls(kind)(rec)._header))
+    while len(obs) < len(chunks):           # the handler died: the remaining reads were never consumed
+        obs.append(([], None, frozen[2], frozen[3]))
+    return {"kind": kind, "client": False, "units": [0], "single": True, "reset": True,
+            "dec": sorted(rec.log.items()), "chunks": [bytes(c) for c in chunks], "obs": obs[:len(chunks)],
+            "stale": False, "escaped": escaped, "responses": len(probe.sent)}
+
+
+def handler_requests(r, kind, n_big, n_small):
+    """valid read / write requests the datastore accepts (so each one is answered), delimiter-free for binary"""
+    out = []
+    while len(out) < n_big + n_small:
+        big = len(out) < n_big
+        k = r.randrange(4)
+        if big:
+            spec = ("WriteMultipleRegistersRequest", (r.randrange(100), [r.choice([7, 0x1234, r.randrange(0x7a00)]) for _ in range(r.choice([100, 110, 120]))]), {}, {})
+        elif k == 0:
+            spec = ("ReadHoldingRegistersRequest", (r.randrange(100), r.randrange(1, 20)), {}, {})
+        elif k == 1:
+            spec = ("ReadCoilsRequest", (r.randrange(100), r.randrange(1, 100)), {}, {})
+        elif k == 2:
+            spec = ("WriteSingleRegisterRequest", (r.randrange(100), r.randrange(0x7a00)), {}, {})
+        else:
+            spec = ("ReadInputRegistersRequest", (r.randrange(100), r.randrange(1, 10)), {}, {})
+        uid = r.choice([1, 17])
+        m, data, pkt = packet_of(kind, spec, uid)
+        if kind == "bin" and has_delim(pkt[1:-1]):
+            continue
+        out.append((spec[0], spec, uid, bytes([int(m.function_code)]) + data, pkt))
+    return out
+
+
+def raising_garbage(kind):
+    """reads that make processIncomingPacket raise (or be rejected) before valid traffic"""
+    und = undecodable_frame(kind, False, 1)
+    g = [("undecodable", [und]), ("undecodable+noise", [und + b"\x00"]), ("badcrc", [flip(und, [9])]),
+         ("noise", [bytes([0x11, 0x99, 0x00, 0xfe, 0x01])]), ("undecodable-twice", [und, und])]
+    if kind == "bin":
+        g += [("brace-pair", [b"{}"]), ("brace-x", [b"{x}"]), ("brace-xy", [b"{xy}"]), ("brace-pair-split", [b"{", b"}"]),
+              ("noise+brace-pair", [b"\x00{}"]), ("brace-pair-twice", [b"{}", b"{}"])]
+    return g
+
+
+def suite_c11_handlers(tier):
+    r = common.rng("b_c11h")
+    quick = tier == "quick"
+    cases = []
+    for frontend in ("sync_serial", "aio_dgram"):
+        for kind in ("rtu", "bin"):
+            for label, g in raising_garbage(kind):
+                for per_read in ((1, 2) if quick else (1, 2, 3)):
+                    for rep in range(1 if quick else 4):
+                        fs = handler_requests(r, kind, 3, r.choice([4, 6]))
+                        reads, chunks = [], list(g)
+                        for i in range(0, len(fs), per_read):
+                            grp = fs[i:i + per_read]
+                            reads.append(grp)
+                            chunks.append(b"".join(f[4] for f in grp))
+                        run = drive_handler(frontend, kind, chunks)
+                        rt = lst(lst("(%s, %s)" % (del_t((f[3], f[2])), z(len(f[4]))) for f in grp) for grp in reads)
+                        term = "(%s,\n %s, %s, %s)" % (scase_t(run), nat(len(g)), z(WINDOW), rt)
+                        desc = run_desc(run, frontend=frontend, garbage=label, ngarb=len(g), per_read=per_read, max_hdr_len=0,
+                                        escaped=run["escaped"], responses=run["responses"],
+                                        frames=[[f[0], f[2], f[3].hex(), len(f[4])] for f in fs])
+                        cases.append(Case(term, desc, kind="%s:%s:%s:%s" % (frontend, kind, label, per_read), nontrivial=True))
+    return Suite("b_c11h", IMPORTS, "chk_c11", cases, shard=30)
+
+
 # ----------------------------------------------------------------------------- contract
 
 def suites_for(pid, tier):
@@ -864,7 +1057,7 @@ def suites_for(pid, tier):
     if pid == "C07":
         return [suite_c07(tier)]
     if pid == "C11":
-        return [suite_c11(tier)]
+        return [suite_c11(tier), suite_c11_handlers(tier)]
     return []
 
 
@@ -956,6 +1149,10 @@ def regions_for(pid, suite, desc):
         return c06_regions(desc)
     if suite == "b_c11":
         return c11_regions(desc)
+    if suite == "b_c11h":
+        if desc.get("escaped"):      # an exception that escapes a serial handler is never a known finding
+            return set()
+        return {"advance-skip"} if desc["kind"] == "bin" and desc["per_read"] > 1 else set()
     if suite == "b_c07":
         return {"stale-start"} if desc["kind"] == "bin" and desc.get("stale") else set()
     return set()
@@ -995,6 +1192,15 @@ def replay_case_for(pid, suite, desc):
     import json
     from lib import coqrun
     print(json.dumps(desc)[:1500])
+    if suite == "b_c11h":
+        run = drive_handler(desc["frontend"], desc["kind"], [bytes.fromhex(c) for c in desc["chunks"]])
+        fs = desc["frames"]
+        reads = [fs[i:i + desc["per_read"]] for i in range(0, len(fs), desc["per_read"])]
+        rt = lst(lst("(%s, %s)" % (del_t((bytes.fromhex(f[2]), f[1])), z(f[3])) for f in grp) for grp in reads)
+        term = "(%s,\n %s, %s, %s)" % (scase_t(run), nat(desc["ngarb"]), z(WINDOW), rt)
+        r = coqrun.eval_cases("replay_" + suite, IMPORTS, "chk_c11", [term])
+        print("now:", r, "escaped:", run["escaped"])
+        return bool(r["propfail"] or r["errors"] or r["disagree"])
     if suite in ("b_c06", "b_c07", "b_c11") or suite == "b_c03":
         run = replay_run(desc)
         if suite == "b_c06":
